@@ -1,6 +1,7 @@
 package nodelite
 
 import (
+	"fmt"
 	"sort"
 	"strings"
 
@@ -75,6 +76,21 @@ func (l *Live) Update(ev *Event) (gone []*File) {
 			l.live[ev.File.Spec], l.removed[ev.File.Spec] = true, false
 		}
 	case "del":
+		if ev.File != nil && ev.Code == 200 {
+			l.live[ev.File.Spec], l.removed[ev.File.Spec] = false, true
+			gone = append(gone, ev.File)
+		}
+	case "delr":
+		// first the overlapping operation on Target (upload or complete delete), then the held delete of File
+		if ev.Target != nil {
+			switch {
+			case ev.Arg[1] == "up" && ev.RaceCode == "201":
+				l.live[ev.Target.Spec], l.removed[ev.Target.Spec] = true, false
+			case ev.Arg[1] == "del" && ev.RaceCode == "200":
+				l.live[ev.Target.Spec], l.removed[ev.Target.Spec] = false, true
+				gone = append(gone, ev.Target)
+			}
+		}
 		if ev.File != nil && ev.Code == 200 {
 			l.live[ev.File.Spec], l.removed[ev.File.Spec] = false, true
 			gone = append(gone, ev.File)
@@ -481,6 +497,10 @@ func NewC16Oracle() *C16Oracle { return &C16Oracle{L: NewLive()} }
 
 func (o *C16Oracle) Check(ctx *core.Ctx, ev *Event) {
 	rn := ev.Runner
+	if ev.Kind == "delr" {
+		o.checkDelRace(ctx, ev)
+		return
+	}
 	// files fully stored before the op
 	var full []*File
 	if !ev.Skipped && (ev.Kind == "del" || ev.Kind == "gc") {
@@ -536,6 +556,74 @@ func (o *C16Oracle) Check(ctx *core.Ctx, ev *Event) {
 			}
 			if !used {
 				ctx.Fail(verb+"-leaves-orphan", "after %s of %s chunk %s (id %d) is still stored, unpinned and used by no other known file", verb, f.Spec, short(a), rn.ids[k])
+				break
+			}
+		}
+	}
+}
+
+// checkDelRace: a DELETE (of File) overlapping with an upload or a DELETE of Target.  Whatever the
+// interleaving, afterwards every file that is still known — the ones fully stored before, and the file
+// whose upload completed during the delete — must be fully stored and readable, and no chunk of a
+// deleted file may stay stored unless it is pinned or another known file contains it.
+func (o *C16Oracle) checkDelRace(ctx *core.Ctx, ev *Event) {
+	rn := ev.Runner
+	var full []*File
+	if !ev.Skipped {
+		for _, g := range o.L.LiveFiles(rn) {
+			if !g.Enc && allStored(g, ev.Before) {
+				full = append(full, g)
+			}
+		}
+	}
+	gone := o.L.Update(ev)
+	if ev.Skipped {
+		return
+	}
+	isGone := map[string]bool{ev.File.Spec: true}
+	for _, f := range gone {
+		isGone[f.Spec] = true
+	}
+	if ev.Target != nil && ev.Arg[1] == "up" && ev.RaceCode == "201" && ev.Mid1 != nil && allStored(ev.Target, ev.Mid1) {
+		dup := false
+		for _, g := range full {
+			dup = dup || g.Spec == ev.Target.Spec
+		}
+		if !dup {
+			full = append(full, ev.Target) // uploaded completely while the delete was held
+		}
+	}
+	what := fmt.Sprintf("delete of %s overlapping with %s of %s", ev.File.Spec, ev.Arg[1], ev.Arg[2])
+	for _, g := range full {
+		if isGone[g.Spec] {
+			continue
+		}
+		if !allStored(g, ev.After) || !rn.readsBack(g) {
+			miss := ""
+			for _, a := range g.All {
+				if !ev.After.Stored[a.String()] {
+					miss = short(a)
+					break
+				}
+			}
+			ctx.Fail("delete-race-breaks-other-file", "%s removed chunk %s of file %s, which was fully stored and is no longer readable", what, miss, g.Spec)
+		}
+	}
+	for _, f := range gone {
+		for _, a := range f.All {
+			k := a.String()
+			if !ev.After.Stored[k] || ev.After.Pin[k] > 0 {
+				continue
+			}
+			used := false
+			for _, g := range o.L.LiveFiles(rn) {
+				if g.Spec != f.Spec && g.HasAddr(a) {
+					used = true
+					break
+				}
+			}
+			if !used {
+				ctx.Fail("delete-race-leaves-orphan", "after %s chunk %s (id %d) of %s is still stored, unpinned and used by no other known file", what, short(a), rn.ids[k], f.Spec)
 				break
 			}
 		}
